@@ -94,6 +94,9 @@ pub enum Expr {
     MkGen(usize, usize, Box<Expr>),
     /// field v of a generic struct value
     GenField(Box<Expr>),
+    /// float64_to_string(<literal>): a float constant that has to survive the JSON round trip
+    /// of the Core IR bit for bit
+    FloatStr(String),
 }
 
 #[derive(Clone, Debug, Default)]
@@ -400,6 +403,17 @@ fn gen_expr(p: &mut Prng, sc: &Scope, cur: &Pkg, want: &Ty, depth: u32) -> Expr 
                         }
                     }
                 }
+            }
+            if p.chance(1, 6) {
+                // 15-17 significant digits, sometimes with an exponent
+                let mant = p.below(9_000_000_000_000_000) + 1_000_000_000_000_000;
+                let digits = mant.to_string();
+                let lit = match p.below(3) {
+                    0 => format!("0.{digits}"),
+                    1 => format!("{}.{}", &digits[..3], &digits[3..]),
+                    _ => format!("{}.{}", &digits[..1], &digits[1..]),
+                };
+                return Expr::FloatStr(lit);
             }
             let strs: Vec<&(String, Ty)> = sc.vars.iter().filter(|(_, t)| *t == Ty::Str).collect();
             if !strs.is_empty() && p.chance(1, 2) {
@@ -904,6 +918,7 @@ impl Project {
             }
             Expr::BoundVar => "BOUND".to_string(),
             Expr::ToString(a) => format!("({}).to_string()", self.expr_str(from, a)),
+            Expr::FloatStr(lit) => format!("float64_to_string({lit})"),
             Expr::MkClosure(b) => format!("(|q: int32| (q + {}))", self.expr_str(from, b)),
             Expr::Apply(f, a) => match **f {
                 Expr::Var(_) => format!("{}({})", self.expr_str(from, f), self.expr_str(from, a)),
@@ -1265,6 +1280,7 @@ impl Project {
                 self.eval(&self.pkgs[*p].inherents[*ii].body, &env2, fuel)?
             }
             Expr::BoundVar => return None,
+            Expr::FloatStr(_) => return None,
             Expr::MkClosure(b) => Val::Clo(env.clone(), b.clone()),
             Expr::Apply(f, a) | Expr::LetApply(f, a, _) => {
                 let fv = self.eval(f, env, fuel)?;
@@ -1333,7 +1349,7 @@ fn expr_uses_tostring(proj: &Project, e: &Expr, depth: u32) -> bool {
     }
     let rec = |x: &Expr| expr_uses_tostring(proj, x, depth + 1);
     match e {
-        Expr::ToString(_) => true,
+        Expr::ToString(_) | Expr::FloatStr(_) => true,
         Expr::Lit(_) | Expr::StrLit(_) | Expr::Var(_) | Expr::BoundVar => false,
         Expr::Add(a, b) | Expr::Sub(a, b) | Expr::Mul(a, b) | Expr::Concat(a, b) => rec(a) || rec(b),
         Expr::IntToStr(a) | Expr::Field(a, _, _) => rec(a),
@@ -1449,7 +1465,7 @@ fn map_expr(e: &mut Expr, f: &mut dyn FnMut(&mut Expr)) {
             map_expr(g, f);
             map_expr(a, f);
         }
-        Expr::Lit(_) | Expr::StrLit(_) | Expr::Var(_) | Expr::BoundVar => {}
+        Expr::Lit(_) | Expr::StrLit(_) | Expr::Var(_) | Expr::BoundVar | Expr::FloatStr(_) => {}
     }
     f(e);
 }
